@@ -318,7 +318,7 @@ class RankedToApprovalVotes:
     def convert(self,
                 votes: Dict[RankedVoteType, Number],
                 ) -> Dict[FrozenSet[Candidate], Number]:
-        approval = {}
+        approval = collections.defaultdict(int)
         for ranking, n_votes in votes.items():
             vote_cands = set()
             for positioned in ranking:
@@ -326,8 +326,8 @@ class RankedToApprovalVotes:
                     vote_cands.update(positioned)
                 else:
                     vote_cands.add(positioned)
-            approval[frozenset(vote_cands)] = n_votes
-        return approval
+            approval[frozenset(vote_cands)] += n_votes
+        return dict(approval)
 
 
 @simple_serialization
